@@ -296,6 +296,7 @@ int main(int argc, char **argv)
     static unsigned char en[MC_MAXOPS];
 
     setvbuf(stdout, NULL, _IOFBF, 1 << 16);
+    shim_watchdog_start();
     for (i = 1; i < argc; i++) {
         if (!strcmp(argv[i], "--prop") && i + 1 < argc) prop = argv[++i];
         else if (!strcmp(argv[i], "--config") && i + 1 < argc) cfg = atoi(argv[++i]);
